@@ -14,6 +14,14 @@ RULE = ("inputs: generated token streams (keys/operators/values/braces, quoted s
 TRUSTED = ["std::io::Read contract is modelled by BufWin.rd_read (schedule of Data n | Fail events)",
            "props/C07_more.ref_tokenize: python reference tokenizer written from the format (oracle for the from_slice reader and for call lists)"]
 ASSUMPTIONS = ["'the buffer can hold the longest token' is TextRef.need (Coq, extracted; proved tight by C07_stream_eq_slice + C07_stream_full); inputs with a byte >= 256 do not occur"]
+# >>> w_buf (wave 5)
+RULE += ("; wave 5 (props/bufstore.py, coq/theories/BufStore.v): buffer.rs at STORAGE level -- op lists (fill_buf over a scripted, possibly "
+         "scribbling Read; advance; advance_to; get; window/position/consumed_data after every op) on the real BufferWindow for every "
+         "capacity 0..40 over dirty buffers (bytes of the data alphabet), zeroed buffers, the bufferless slice window and buffers recycled from a "
+         "previous window; schedules with short reads, reads at the end of the data (Ok(0)), full buffers, faults; extracted storage model = "
+         "implementation, and a stream-level python oracle that keeps no buffer contents (window = slice of the delivered data at position)")
+TRUSTED = TRUSTED + ["props/bufstore.Sim: offsets-only reference of BufferWindow (oracle bufstore-window / bufstore-position / bufstore-full)"]
+# <<< w_buf
 
 
 def sched_str(s):
@@ -161,6 +169,11 @@ def run(ctx):
     from props import C07_more
     C07_more.run(ctx, sys.modules[__name__])
     # <<< a_c07
+    # >>> w_buf (wave 5): buffer.rs at storage level -- op lists on the real BufferWindow over dirty / recycled buffers
+    # against the extracted storage model (coq/theories/BufStore.v) and a stream-level oracle; see props/bufstore.py
+    from props import bufstore
+    bufstore.run(ctx, "C07", 4000, 60000)
+    # <<< w_buf
     shrink(ctx)
 
 
